@@ -17,6 +17,9 @@ EXPLANATION = ('every answer of the returned model (in-clique and out-of-clique 
                'the remaining mass must sum to the total and nothing may be NaN')
 
 
+DIVERGED = [0.0]
+
+
 def check_zeros(model, prob, r, synth=True):
     dom = prob['dom']
     attrs = [a for a, _ in dom]
@@ -24,6 +27,12 @@ def check_zeros(model, prob, r, synth=True):
     zeros = prob['zeros']
     total = float(model.total)
     thr = 1e-80 * max(total, 1.0)
+    # float rounding of log Z: parameters of magnitude M make every table inexact by about eps*M (same scaling as the C08 coherence check);
+    # beyond 1e12 mirror descent's unbounded step doubling has diverged (recorded finding of C03 / C08) and the sum test is reported under that cause
+    mags = [float(np.abs(v[np.isfinite(v)]).max()) for v in (np.asarray(model.potentials[c].values) for c in model.cliques) if np.isfinite(v).any()]
+    M = max(mags + [0.0])
+    DIVERGED[0] = M if M > 1e12 else 0.0
+    sum_tol = 1e-6 if M > 1e12 else max(1e-6, 16 * 2.2e-16 * M)
     tups = set()
     for zc in zeros:
         tups.add(tuple(zc))
@@ -40,8 +49,8 @@ def check_zeros(model, prob, r, synth=True):
             for m, x in zip(mask, v):
                 if m and abs(x) > thr:
                     return f'answer for {list(t)} puts mass {x:.6g} on a structurally impossible cell (total {total:.6g})'
-            if not close(float(v.sum()), total, 1e-6, 1e-9):
-                return f'answer for {list(t)} sums to {float(v.sum())}, total {total}'
+            if not close(float(v.sum()), total, sum_tol, 1e-9):
+                return f'answer for {list(t)} sums to {float(v.sum())}, total {total}' + (f' (max |theta| = {M:.3g})' if M > 1e6 else '')
         dv = np.asarray(model.datavector(), dtype=float)
         if np.isnan(dv).any():
             return 'full vector contains NaN'
@@ -134,7 +143,8 @@ def run(res, drv, tier, seed):
         except Exception as e:
             bad = f'estimate raises {type(e).__name__}: {str(e)[:120]}'
         if bad:
-            res.violation('failing-input', f'{engine} (warm_start={warm}): {bad}', {'request': canon, 'expected': bad}, key=f'zeros:{engine}')
+            res.violation('failing-input', f'{engine} (warm_start={warm}): {bad}', {'request': canon, 'expected': bad},
+                          key=f'zeros:{engine}' + (':diverged-parameters' if (DIVERGED[0] and 'sums to' in bad) else ''))
     directed_tree_zeros(res, rng(seed, 'C10-tree'), tier)
     directed_mechanism_zeros(res, rng(seed, 'C10-aim'), tier)
 
